@@ -531,7 +531,8 @@ package fsm
 //@ func iteratorLookup
 //@   assumed
 //@   requires reader != nil && req != nil
-//@   modifies nothing
+//@   ensures reader.lazyReaders >= old(reader.lazyReaders)      // one more outstanding stream when the answer is lazy (C08.stable)
+//@   modifies reader.lazyReaders
 
 // a read-only transaction: every operation of both branches is a range read
 //@ pure func roOp(o *regattapb.RequestOp) bool = o != nil && typeIs(o.Request, *regattapb.RequestOp_RequestRange) && asType(o.Request, *regattapb.RequestOp_RequestRange) != nil && opRange(o) != nil
@@ -553,7 +554,7 @@ package fsm
 //@   ensures [C02.ro.nth]   err == nil && typeIs(l, *regattapb.TxnRequest) ==> len(asType(out, *regattapb.TxnResponse).Responses) == (asType(out, *regattapb.TxnResponse).Succeeded ? len(asType(l, *regattapb.TxnRequest).Success) : len(asType(l, *regattapb.TxnRequest).Failure))
 //@   ensures [C01.lookup.idx]  err == nil && typeIs(l, LocalIndexRequest) ==> typeIs(out, *IndexResponse) && asType(out, *IndexResponse) != nil && asType(out, *IndexResponse).Index == (p.pebble.v.vP[IDX()] ? unle64(p.pebble.v.vV[IDX()]) : 0)
 //@   ensures [C03.lookup.lidx] err == nil && typeIs(l, LeaderIndexRequest) ==> typeIs(out, *IndexResponse) && asType(out, *IndexResponse) != nil && asType(out, *IndexResponse).Index == (p.pebble.v.vP[LIDX()] ? unle64(p.pebble.v.vV[LIDX()]) : 0)
-//@   modifies p.pebble.v.vP, p.pebble.v.vV, asType(l, SnapshotRequest).Writer.sdata, asType(l, SnapshotRequest).Writer.slen, asType(l, SnapshotRequest).Writer.nmsg, asType(l, SnapshotRequest).Writer.msg
+//@   modifies p.pebble.v.lazyReaders, p.pebble.v.vP, p.pebble.v.vV, asType(l, SnapshotRequest).Writer.sdata, asType(l, SnapshotRequest).Writer.slen, asType(l, SnapshotRequest).Writer.nmsg, asType(l, SnapshotRequest).Writer.msg
 //@   loop 0 invariant rangeindex < len(asType(l, *regattapb.TxnRequest).Success)
 //@   loop 0 invariant -1 <= rangeindex && len(ops) == rangeindex + 1 && (isNilSlice(ops) || fresh(ops)) && forall j int :: 0 <= j && j <= rangeindex ==> ops[j] != nil
 //@   loop 1 invariant rangeindex < len(asType(l, *regattapb.TxnRequest).Failure)
@@ -575,7 +576,7 @@ package fsm
 //@   assumed
 //@   results db, err
 //@   requires p != nil
-//@   ensures err == nil ==> db != nil && fresh(db) && p.fs.vHas[dbdir] && p.fs.opened[dbdir] && (db.vP[bytesOf(sysLocalIndex)] ==> blen(db.vV[bytesOf(sysLocalIndex)]) == 8) && (db.vP[bytesOf(sysLeaderIndex)] ==> blen(db.vV[bytesOf(sysLeaderIndex)]) == 8)
+//@   ensures err == nil ==> db != nil && fresh(db) && db.lazyReaders == 0 && p.fs.vHas[dbdir] && p.fs.opened[dbdir] && (db.vP[bytesOf(sysLocalIndex)] ==> blen(db.vV[bytesOf(sysLocalIndex)]) == 8) && (db.vP[bytesOf(sysLeaderIndex)] ==> blen(db.vV[bytesOf(sysLeaderIndex)]) == 8)
 //@   ensures forall q string :: old(p.fs.vHas[q]) ==> p.fs.vHas[q]
 //@   ensures forall q string :: old(p.fs.opened[q]) ==> p.fs.opened[q]
 //@   modifies p.fs.vHas, p.fs.opened
@@ -750,8 +751,15 @@ package fsm
 //@   requires d != nil
 //@   ensures (d.vP[bytesOf(fsm.sysLocalIndex)] ==> blen(d.vV[bytesOf(fsm.sysLocalIndex)]) == 8) && (d.vP[bytesOf(fsm.sysLeaderIndex)] ==> blen(d.vV[bytesOf(fsm.sysLeaderIndex)]) == 8)
 //@   modifies d.vP, d.vV
+// Typestate of a DB handle: lazyReaders = lazily consumed range streams handed out over this handle
+// (FSM.Lookup(IteratorRequest) -> iteratorLookup) that may still be consumed. Closing the handle
+// while one is outstanding makes its consumer panic ("pebble: closed"): a read overlapping an
+// install must fail cleanly instead. The obligation [C08.stable] is the precondition of Close.
+//@ ghostfield any.lazyReaders Int = 0
 //@ func pebble.(*DB).Close
 //@   assumed
+//@   params d
+//@   requires [C08.stable] d.lazyReaders == 0
 //@   modifies nothing
 
 // recover (snapshot format). The live state - the DB pointer and the durable `current` - changes only
@@ -767,7 +775,7 @@ package fsm
 //@   ensures [C08.install.recoverable] recoverable(s.fsm.fs, s.fsm.dirname)
 //@   ensures [C08.install.swap] s.fsm.pebble.v != old(s.fsm.pebble.v) ==> s.fsm.fs.dCur[s.fsm.dirname] == s.fsm.fs.vCur[s.fsm.dirname] && s.fsm.fs.opened[pjoin(s.fsm.dirname, s.fsm.fs.dCur[s.fsm.dirname])]
 //@   modifies s.fsm.fs.vHas, s.fsm.fs.dHas, s.fsm.fs.dCur, s.fsm.fs.vCur, s.fsm.fs.updName, s.fsm.fs.opened, s.fsm.pebble.v, r.rest, world.syncedPath, family(G_any_vP), family(G_any_vV)
-//@   loop 0 invariant db != nil && fresh(db) && s.fsm == old(s.fsm) && (isNilSlice(files) || fresh(files)) && (isNilSlice(buff) || fresh(buff))
+//@   loop 0 invariant db != nil && fresh(db) && db.lazyReaders == 0 && s.fsm == old(s.fsm) && (isNilSlice(files) || fresh(files)) && (isNilSlice(buff) || fresh(buff))
 //@   loop 0 invariant s.fsm.fs.opened[dbdir] && s.fsm.fs.vHas[dbdir] && s.fsm.pebble.v == old(s.fsm.pebble.v)
 //@   loop 0 invariant forall d string :: s.fsm.fs.dCur[d] == old(s.fsm.fs.dCur[d]) && s.fsm.fs.vCur[d] == old(s.fsm.fs.vCur[d])
 //@   loop 0 invariant forall q string :: old(s.fsm.fs.dHas[q]) ==> s.fsm.fs.dHas[q]
